@@ -337,6 +337,21 @@ def calibrate_cases(draw, kind, fault_iters=6):
         t = draw(st.sampled_from([x for x in (2016.5, 2017.0, 2018.0) if x != t0]))
         targets.append([q, pn, t, draw(st.sampled_from([0.7, 0.9, 1.1, 1.5]))])
     case = {"kind": kind, "model": model, "settings": s, "adj": adj, "y0": y0, "meas": meas, "targets": targets, "randseed": draw(st.integers(0, 2**31 - 1))}
+    if c["total_vars"] and not string_meas and not _one_in(draw, 3):
+        # aggregate data: an extra 'Total' row in the quantity's databook table, compared with the model output aggregated over all populations
+        # (sum for numbers, population average for rates / probabilities / fractions / proportions)
+        rows = {}
+        averaged = [v for v in c["total_vars"] if v[1] == "average"]
+        for _ in range(draw(st.sampled_from([1, 1, 2]))):
+            q, _k = draw(st.sampled_from(averaged)) if (averaged and not _one_in(draw, 3)) else draw(st.sampled_from(c["total_vars"]))
+            if q in rows:
+                continue
+            ts = sorted(draw(st.lists(st.sampled_from([2016.0, 2016.5, 2017.0, 2018.0]), min_size=1, max_size=3, unique=True)))
+            rows[q] = [[t, draw(st.sampled_from([0.7, 0.9, 1.0, 1.1, 1.5]))] for t in ts if t >= s["start"] + (s.get("shift") or 0.0)] or [[2018.0, 1.1]]
+            meas.append([q, "Total", draw(st.sampled_from([1.0, 0.5, 2.0])), draw(st.sampled_from(["fractional", "fractional", "wape", "meansquare"]))])
+            if _one_in(draw, 2) and not string_adj and q in c["ypars"] and all(a[0] != q for a in adj):
+                adj.append([q, draw(st.sampled_from(c["pops"] + [None])), 0.1, 5.0])  # a factor that moves the aggregate
+        case["total_rows"] = rows
     if kind == "calibrate-fault":
         case["budget"] = {"maxiters": draw(st.integers(1, fault_iters))}
     elif _one_in(draw, 5):
@@ -866,6 +881,14 @@ def _prepare_calibration(case):
     for q, pn, t, f in case["targets"]:
         ts = P.data.tdve[q].ts[pn]
         ts.insert(float(t), float(f) * float(ts.vals[0]))
+    if case.get("total_rows"):
+        model = P.run_sim(parset=ps.copy(), store_results=False).model  # the library parset, before any starting factor is changed
+        for q, pts in case["total_rows"].items():
+            agg = H.own_total_series(model, q)
+            first = P.data.tdve[q].ts[list(P.data.pops.keys())[0]]
+            tt = [float(t) for t, _ in pts]
+            vv = [float(f) * float(np.interp(t, model.t, agg)) for t, f in pts]
+            P.data.tdve[q].ts["Total"] = at.TimeSeries(t=tt, vals=vv, units=first.units)
     for p, pop, y in case["y0"]:
         _set_factor(ps, p, pop, float(y))
     return at, P, ps
@@ -935,6 +958,8 @@ def _check_calibrate(case):
         labels.append("adjustables:meta-factor")
     if any(not isinstance(a, str) and a[0] not in ps.pars for a in case["adj"]):
         labels.append("adjustables:transfer")
+    for q in case.get("total_rows") or {}:
+        labels.append("total-row:" + dict(H.catalogue()[case["model"]]["total_vars"])[q])
     if len(set((a[0], a[1]) for a in adj)) != len(adj):
         raise HarnessError("duplicate adjustable")
     for p, pop, lo, hi in adj:
